@@ -219,6 +219,10 @@ Future<int> MutexForms() {
     auto g = co_await m.GuardSticky();
     co_await g.Unlock();
     co_await g.Lock();
+    // every member of the sticky guard, move assignment and Swap included
+    auto g2 = std::move(g);
+    g = std::move(g2);
+    g.Swap(g2);
   }
   co_return 1;
 }
